@@ -3,7 +3,7 @@ from verifkit.runner import Stream
 from verifkit import gen, wiregen as W
 
 ID = "C04"
-THM_MODULES = ["Minicbor.Thm.C04", "Minicbor.Thm.C04Acc", "Minicbor.Thm.C04Typed", "Minicbor.Thm.C04Sound", "Minicbor.Thm.C05"]
+THM_MODULES = ["Minicbor.Thm.C04", "Minicbor.Thm.C04Acc", "Minicbor.Thm.C04Typed", "Minicbor.Thm.C04Sound", "Minicbor.Thm.C05", "Minicbor.Thm.Iter"]
 P = "Minicbor.C04."
 REQUIRED = [P + n for n in """bytes_sound str_sound str_invalid_utf8 array_sound map_sound tag_sound array_indef map_indef
 bool_sound null_sound undefined_sound simple_sound chunkLoop_bytes chunkLoop_text bytes_iter_indef str_iter_indef
@@ -13,7 +13,8 @@ prefix_eoi prefix_eoi' prefix_eoi_item prefix_eoi_any
 typed_stable typed_prefix_eoi typed_prefix_eoi' typed_prefix_eoi_any
 typed_sound typed_rejects typed_ok_iff typed_mismatch_err typed_prefix_eoi_reframed
 typed_bare_tag typed_sound_partial typed_sound_statement_needs_exclusion interp_of_encode""".split()] + \
-           ["Minicbor.C05.int_accessor_exact"]
+           ["Minicbor.C05.int_accessor_exact"] + \
+           ["Minicbor.IterThm." + n for n in "drain_definite drain_indefinite arrayIter_is_next_loop definite_fused indefinite_not_fused all_is_drain".split()]
 PACKAGES = ["hcore"]
 RULE = ("dec <accessor> <encW(tree) ++ suffix>: wire trees = all scalar shapes at every head width and boundary argument, containers of 0..3 "
         "children over {definite at every width, indefinite} x {array, map}, tags, chunked strings, plus seeded random trees to depth 6; "
@@ -131,7 +132,7 @@ def judge_iter(op, impl, model, spec):
     e = [x for x in op.split(" ") if x.startswith("#E=")]
     if e and a != e[0][3:].replace("~", " "):
         return "violation"
-    return "ok"
+    return "ok" if model == a else "corr"
 
 
 def iter_stream(rng, tier):
@@ -165,10 +166,10 @@ def iter_stream(rng, tier):
         if ad == "all" and r >= 0.2 and kind != "map":
             exp = " #E=" + (",".join(str(v) for v in vals) or "-").replace(" ", "~") + f"~@{len(e)}"
         ops.append(f"aiter {kind} {ad} {gen.hexb(e + tail)}{exp}")
-    st = Stream("iterator-adaptors", "hcore", ops, model_ops=["nop"] * len(ops), judge=judge_iter,
+    st = Stream("iterator-adaptors", "hcore", ops, judge=judge_iter,
                 rule="aiter: Decoder::array_iter / array_iter_with / map_iter behind nth, skip, step_by, take, last, count vs plain next() calls "
-                     "(definite and indefinite containers, data behind them, truncations, foreign items inside); no model op: the two transcripts "
-                     "come from the same build",
+                     "(definite and indefinite containers, data behind them, truncations, foreign items inside), and vs the model's iterator "
+                     "(Iter.lean: state + next; the adaptors spelled out through next as core defines them; Thm/Iter: next-until-None = the drained loops)",
                 nontrivial=lambda op, impl: " | " in impl)
     st.shrinkable = False
     return st
@@ -176,5 +177,5 @@ def iter_stream(rng, tier):
 
 def replay_streams(rp):
     if rp["original_op"].startswith("aiter"):
-        return [Stream("replay", "hcore", [rp["original_op"]], model_ops=["nop"], judge=judge_iter)]
+        return [Stream("replay", "hcore", [rp["original_op"]], judge=judge_iter)]
     return [Stream("replay", "hcore", [rp["original_op"]], judge=judge)]
